@@ -77,6 +77,8 @@ def run(ctx):
         for sd in seeds:
             callers = [2, 4, 8, 3, 5, 6][(sd - ctx.seed) % 6]
             calls = 500 // callers if mode == "plain" else 300 // callers
+            if len(ctx.violations) >= 3:
+                break          # enough evidence; blocked runs are slow to time out
             res = stress(ctx, mode, sd, callers, calls)
             if res is None:
                 continue
